@@ -33,6 +33,7 @@
 //!                           BY LABEL, relational B-tree index range selects)
 //!   C08.rollback.counters   same for RelationalEngine::table_count
 //!   C08.retention           with max_checkpoints = n, after n+k creates exactly the newest n are listed
+//!                           (checkpoint names unique, and all checkpoints sharing one name)
 //!   C08.retention.rollback  every listed checkpoint rolls back (Ok), satisfies rollback.queries' view
 //!                           equality and leaves the database usable
 //!   C08.rollback.repeat     a checkpoint that was rolled back to, and every checkpoint listed before
@@ -537,7 +538,8 @@ fn retention_world(case: &Value) -> Result<(World, Vec<(String, String, View)>, 
     w.build_pre(&case["pre"]).map_err(|e| (true, e))?;
     let mut cps: Vec<(String, String, View)> = vec![];
     for i in 0..=script.len() {
-        let name = format!("r{i}");
+        // "names": "same" = every checkpoint reuses one name (a nightly job, the auto-before-<op> checkpoints)
+        let name = if case["names"] == "same" { "nightly".to_string() } else { format!("r{i}") };
         let core = w.core_view();
         match w.cp_create(&name) { Ok(id) => cps.push((id, name, core)), Err(e) => return Err((false, format!("checkpoint create #{i} failed: {e}"))) }
         if i < script.len() { w.apply(&script[i]); }
@@ -757,6 +759,10 @@ plus 600 seeded random cases with scripts of length 4..5 (not exhaustive)" } els
     }
     for (pre, driver) in [(&empty, "mgr"), (&full, "mgr"), (&full, "router")] { for s in scripts(pre, BASE_OPS, 1, 2, true) { for max in 1..=s.len() {
         record(&mut rep, &json!({"kind": "retention", "driver": driver, "pre": pre, "script": s, "max": max, "reps": 3}));
+    } } }
+    // checkpoints that share a name (targets are ids, so only the manager driver): same clauses
+    for pre in [&empty, &full] { for s in scripts(pre, BASE_OPS, 1, 2, true) { for max in 1..=s.len() {
+        record(&mut rep, &json!({"kind": "retention", "driver": "mgr", "pre": pre, "script": s, "max": max, "reps": 1, "names": "same"}));
     } } }
     for driver in ["mgr_sep", "router"] { for s in scripts(&full, BASE_OPS, 1, 2, true) { for cp in 0..=s.len() {
         if s.len() == 2 && (cp > 0 || driver == "mgr_sep") { continue; }
